@@ -71,6 +71,7 @@ THEOREMS = [
     "Nix.C08.C08_equal_coordinates",
     "Nix.C08.C08_point_on_ticks",
     "Nix.C08.C08_region_equal_coordinates",
+    "Nix.C08.C08_runs_taken_whole",
 ]
 ASSUMPTIONS = [
     "floats are modelled as exact rationals (DESIGN section 5): the unit factor is the exact power of ten, positions "
@@ -1728,7 +1729,7 @@ MANIFEST = {
                   "is an integer or outside the band of its two neighbours, up to 10^11 samples) and proved sufficient; "
                   "end points on sample coordinates always meet it. An extent of zeros equals no extent; no position = "
                   "whole array; fewer units than positions = refused. Samples with the same coordinate (runs of equal ticks "
-                  "on an irregular axis) are taken all or none, per axis and in the valid result of Tag.tagged_data; a "
+                  "on an irregular axis) are taken all or none, per axis and in the valid result of Tag / MultiTag.tagged_data and of a Tag's tagged feature; a "
                   "point (no / zero extent) on an irregular axis yields exactly the ticks equal to the scaled position, "
                   "None iff there is none, never an error. Multi-tag row selection and 1-D -> 2-D promotion, "
                   "feature data per link type (tagged / indexed / untagged) for Tag and MultiTag, refusal classes; a "
